@@ -365,6 +365,8 @@ class Evaluator:
                     return sub.function(m.node)
             if isinstance(base, slice) and n.attr in ('start', 'stop', 'step'):
                 return getattr(base, n.attr)
+            if isinstance(base, _datetime.datetime) and n.attr in ('tzinfo', 'year', 'month', 'day', 'hour', 'minute', 'second', 'microsecond'):
+                return getattr(base, n.attr)        # plain data of a real datetime (rules that evaluate with the real type)
         if isinstance(n, ast.Attribute) and ast.unparse(n) in DOTTED and ast.unparse(n).split('.')[0] not in self.env:
             return DOTTED[ast.unparse(n)]
         if isinstance(n, ast.Attribute) and isinstance(n.value, ast.Name) and n.value.id in ('self', 'cls') and self.owner is not None:
